@@ -4,6 +4,7 @@ package main
 
 import (
 	"fmt"
+	"runtime/debug"
 	"go/constant"
 	"go/token"
 	"go/types"
@@ -182,6 +183,7 @@ type Worker struct {
 	pdoms        map[*ssa.Function]*pdomInfo
 	mergeFails   map[ssa.Instruction]int
 	regionDepth  int
+	mergeDepth   int // >0 while inside callMerged (lazy branching, see callMerged)
 	RegionsMerged int
 	syncMaps     map[string]*Object
 	opaqueStr    map[int]Value
@@ -190,6 +192,9 @@ type Worker struct {
 	hashApps     map[string][]hashApp
 	errgroupErr  map[string]IfaceV
 	domSlotCache map[*ssa.BasicBlock][]int
+	mergeWhy     string
+	epoch        int
+	noInPlace    int
 	lazyNext     bool
 	LazyBranches int
 	pcH          [][2]uint64
@@ -209,7 +214,14 @@ func (w *Worker) setObj(o *Object, v Value) {
 	o.val = v
 }
 
+// newMark starts a new heap epoch and returns the journal position.
+func (w *Worker) newMark() int {
+	w.epoch++
+	return len(w.journal)
+}
+
 func (w *Worker) rollback(mark int) {
+	w.epoch++
 	for i := len(w.journal) - 1; i >= mark; i-- {
 		j := w.journal[i]
 		if j.isSync {
@@ -291,6 +303,62 @@ func (w *Worker) note(s string) {
 	w.notes = append(w.notes, s)
 }
 
+// Decisions are recorded as site<<32 | (value+8): on re-execution of a prefix
+// the site (kind of decision + source position) is compared, so that a
+// re-execution that takes different decisions than the original is detected
+// (INCONCLUSIVE) instead of silently exploring something else.
+const (
+	skBranch = 1 + iota
+	skChoose
+	skConcr
+	skFree
+	skMerge
+)
+
+func (w *Worker) site(kind int) int {
+	h := uint32(kind) * 2654435761
+	if w.cur != nil && w.cur.instr != nil {
+		h ^= uint32(w.cur.instr.Pos()) * 40503
+	}
+	return int(h & 0x7fffffff)
+}
+
+func encDec(site, val int) int { return site<<32 | int(uint32(val+8)) }
+func decVal(x int) int         { return int(uint32(x)) - 8 }
+func decSite(x int) int        { return x >> 32 }
+
+// replayNext reads the next recorded decision and checks its site.
+func (w *Worker) replayNext(d *dctx, site int, what string) int {
+	x := d.prefix[d.pos]
+	d.pos++
+	d.taken = append(d.taken, x)
+	if decSite(x) != site {
+		panic(pathAbort{abError, fmt.Sprintf("internal: decision desync at %s (position %d of %d): the re-execution of a decision prefix reached a different decision point than the original execution (site %d vs recorded %d, value %d)", what, d.pos-1, len(d.prefix), site, decSite(x), decVal(x)) + w.where() + dbgStack()})
+	}
+	return decVal(x)
+}
+
+func decodeDecisions(xs []int) []int {
+	out := make([]int, len(xs))
+	for i, x := range xs {
+		out[i] = decVal(x)
+	}
+	return out
+}
+
+func (w *Worker) dtrace(kind string, pos int, val int) {
+	if !decTrace || w.regionDepth > 0 || w.mergeDepth > 0 {
+		return
+	}
+	loc := ""
+	if w.cur != nil && w.cur.instr != nil {
+		loc = w.cur.fn.Name() + "@" + w.prog.fset.Position(w.cur.instr.Pos()).String()
+	}
+	fmt.Fprintf(os.Stderr, "DEC path=%d %s pos=%d val=%d %s\n", w.Paths, kind, pos, val, loc)
+}
+
+var decTrace = os.Getenv("GOSYM_DECTRACE") != ""
+
 // branch decides a symbolic condition; forks via the decision queue.
 func (w *Worker) branch(c *Term) bool {
 	if c.IsTrue() {
@@ -300,11 +368,10 @@ func (w *Worker) branch(c *Term) bool {
 		return false
 	}
 	d := w.dc
+	site := w.site(skBranch)
 	if d.pos < len(d.prefix) {
 		w.lazyNext = false
-		v := d.prefix[d.pos]
-		d.pos++
-		d.taken = append(d.taken, v)
+		v := w.replayNext(d, site, "branch")
 		if v == 0 {
 			w.addPC(c)
 			return true
@@ -320,27 +387,27 @@ func (w *Worker) branch(c *Term) bool {
 		// unsatisfiable condition
 		w.lazyNext = false
 		w.LazyBranches++
-		alt := append(append([]int{}, d.taken...), 1)
+		alt := append(append([]int{}, d.taken...), encDec(site, 1))
 		*d.queue = append(*d.queue, alt)
-		d.taken = append(d.taken, 0)
+		d.taken = append(d.taken, encDec(site, 0))
 		w.addPC(c)
 		return true
 	}
 	ft := w.feasible(c)
 	if !ft {
-		d.taken = append(d.taken, 1)
+		d.taken = append(d.taken, encDec(site, 1))
 		w.addPC(nc) // implied; keep pc explicit for models
 		return false
 	}
 	ff := w.feasible(nc)
 	if !ff {
-		d.taken = append(d.taken, 0)
+		d.taken = append(d.taken, encDec(site, 0))
 		w.addPC(c)
 		return true
 	}
-	alt := append(append([]int{}, d.taken...), 1)
+	alt := append(append([]int{}, d.taken...), encDec(site, 1))
 	*d.queue = append(*d.queue, alt)
-	d.taken = append(d.taken, 0)
+	d.taken = append(d.taken, encDec(site, 0))
 	w.addPC(c)
 	return true
 }
@@ -348,10 +415,12 @@ func (w *Worker) branch(c *Term) bool {
 // choose performs an n-ary decision: conds[i] are mutually exclusive guards.
 func (w *Worker) choose(conds []*Term) int {
 	d := w.dc
+	site := w.site(skChoose)
 	if d.pos < len(d.prefix) {
-		v := d.prefix[d.pos]
-		d.pos++
-		d.taken = append(d.taken, v)
+		v := w.replayNext(d, site, "n-ary choice")
+		if v < 0 || v >= len(conds) {
+			panic(pathAbort{abError, fmt.Sprintf("internal: decision desync at n-ary choice (code %d of %d)", v, len(conds))})
+		}
 		w.addPC(conds[v])
 		return v
 	}
@@ -362,7 +431,7 @@ func (w *Worker) choose(conds []*Term) int {
 			if first < 0 {
 				first = i
 			} else {
-				alt := append(append([]int{}, d.taken...), i)
+				alt := append(append([]int{}, d.taken...), encDec(site, i))
 				*d.queue = append(*d.queue, alt)
 			}
 		}
@@ -370,7 +439,7 @@ func (w *Worker) choose(conds []*Term) int {
 	if first < 0 {
 		panic(pathAbort{abInfeasible, "no feasible alternative"})
 	}
-	d.taken = append(d.taken, first)
+	d.taken = append(d.taken, encDec(site, first))
 	w.addPC(conds[first])
 	return first
 }
@@ -582,9 +651,16 @@ func (w *Worker) externGlobalValue(g *ssa.Global, et types.Type) Value {
 	if st, ok := under(et).(*types.Struct); ok && st.NumFields() == 0 {
 		return w.zero(et)
 	}
+	if h, ok := externGlobalHooks[name]; ok {
+		return h(w, et)
+	}
 	w.unsupported("read of external global %s", name)
 	return nil
 }
+
+// externGlobalHooks: models of package-level variables of packages without SSA
+// bodies (registered from intr_*.go init functions), keyed by "pkg/path.Name".
+var externGlobalHooks = map[string]func(w *Worker, t types.Type) Value{}
 
 // ---- memory ----
 
@@ -655,12 +731,19 @@ func (w *Worker) setPath(v Value, path []PE, nv Value) Value {
 		ns.F[e.I] = w.setPath(x.F[e.I], path[1:], nv)
 		return ns
 	case *ArrayV:
-		na := &ArrayV{E: make([]Value, len(x.E))}
+		if e.Sym == nil && x.epoch != 0 && x.epoch == w.epoch && w.noInPlace == 0 {
+			x.E[e.I] = w.setPath(x.E[e.I], path[1:], nv)
+			return x
+		}
+		na := &ArrayV{E: make([]Value, len(x.E)), epoch: w.epoch}
 		copy(na.E, x.E)
 		if e.Sym == nil {
 			na.E[e.I] = w.setPath(x.E[e.I], path[1:], nv)
 			return na
 		}
+		na.epoch = 0
+		w.noInPlace++
+		defer func() { w.noInPlace-- }()
 		if len(x.E) > w.prog.maxSymIndex {
 			w.unsupported("symbolic store index into array of %d elements", len(x.E))
 		}
@@ -696,13 +779,42 @@ func (w *Worker) load(p PtrV) Value {
 	if p.Obj == nil {
 		w.goPanic("invalid memory address or nil pointer dereference")
 	}
-	return w.getPath(p.Obj.val, p.Path)
+	v := w.getPath(p.Obj.val, p.Path)
+	unfresh(v)
+	return v
+}
+
+// unfresh: an aggregate that has been loaded as a value may now be shared; its
+// arrays must not be updated in place any more.
+func unfresh(v Value) {
+	switch x := v.(type) {
+	case *ArrayV:
+		if x.epoch != 0 {
+			x.epoch = 0
+		}
+		if len(x.E) > 0 {
+			switch x.E[0].(type) {
+			case *ArrayV, *StructV:
+				for _, e := range x.E {
+					unfresh(e)
+				}
+			}
+		}
+	case *StructV:
+		for _, f := range x.F {
+			switch f.(type) {
+			case *ArrayV, *StructV:
+				unfresh(f)
+			}
+		}
+	}
 }
 
 func (w *Worker) store(p PtrV, v Value) {
 	if p.Obj == nil {
 		w.goPanic("invalid memory address or nil pointer dereference")
 	}
+	unfresh(v)
 	w.setObj(p.Obj, w.setPath(p.Obj.val, p.Path, v))
 }
 
@@ -1222,7 +1334,7 @@ func (w *Worker) visit(fr *frame, in ssa.Instruction) cont {
 					}
 				}
 			}
-			if w.regionDepth > 0 && w.prog.lazyRegions && !isLoopHeader(fr.block) {
+			if (w.regionDepth > 0 || w.mergeDepth > 0) && w.prog.lazyRegions && !isLoopHeader(fr.block) {
 				w.lazyNext = true
 			}
 			t = w.branch(c)
@@ -1382,4 +1494,11 @@ func isLoopHeader(b *ssa.BasicBlock) bool {
 		}
 	}
 	return false
+}
+
+func dbgStack() string {
+	if os.Getenv("GOSYM_DBGSTACK") == "" {
+		return ""
+	}
+	return "\n" + string(debug.Stack())
 }
